@@ -184,3 +184,50 @@ def check(ctx):
     # OS[mesh_size] is current at that test: refreshed by the poll step's last store / loop head
     ctx.assume("options are the shipped defaults unless the user overrides them; the tabled search_mesh_expand option is outside the property's option quantifier")
     ctx.assume("integer exponent arithmetic: +1/-1 steps keep the exponent integral")
+
+
+def check_thorough(ctx):
+    """path enumeration through the poll step: on every entry->exit path the net
+    change of the mesh exponent is one of {+1 capped, -1, -2}."""
+    import networkx as nx
+
+    prog = ctx.prog
+    R = roles_of(prog)
+    poll = R.poll_step
+    cfg = cfg_of(poll)
+    stores = {}
+    for t, v, s, kind in iter_stores(poll.node):
+        if isinstance(t, ast.Attribute) and t.attr == EXP:
+            n = cfg.node_of(s)
+            d = None
+            if kind == "aug" and isinstance(s.op, ast.Sub) and const_num(v) == 1:
+                d = -1
+            elif kind == "assign" and call_name(v) in ("np.minimum", "min"):
+                d = +1
+            stores[n.id] = d
+    # collapse the poll loop: enumerate paths on the graph without the loop body
+    loops = set()
+    for h, body in cfg.loops.items():
+        loops |= body
+    g = cfg.g.copy()
+    ctx.rule("T1", "thorough: net mesh-exponent change per poll is in {+1 (capped), -1, -2} on every enumerated path", floor=1)
+    total, bad = 0, []
+    sub = g.subgraph([n for n in g.nodes if n not in loops or n in stores]).copy()
+    # reconnect loop headers to their exits
+    for h in cfg.loops:
+        for x in cfg.succ(h, "F"):
+            sub.add_edge(h, x)
+        for b in cfg.loops[h]:
+            for x in cfg.g.successors(b):
+                if x not in cfg.loops[h] and x != h and h in sub and x in sub:
+                    sub.add_edge(h, x)
+    for p in nx.all_simple_paths(sub, cfg.entry.id, cfg.exit.id):
+        total += 1
+        ds = [stores[n] for n in p if n in stores]
+        net = None if any(d is None for d in ds) else sum(ds)
+        if net not in (1, -1, -2):
+            bad.append((net, ds))
+        if total >= 20000:
+            break
+    ctx.extra["poll_step_paths_enumerated"] = total
+    ctx.check(not bad, poll, poll.node, f"{total} paths: net change in {{+1,-1,-2}}", f"{len(bad)} of {total} enumerated paths change the mesh exponent by {sorted(set(str(b[0]) for b in bad))}", construct="mesh exponent net change (path enumeration)")
